@@ -2,6 +2,7 @@
 package c14
 
 import (
+	"crypto/ed25519"
 	"crypto/rand"
 	"crypto/tls"
 	"crypto/x509"
@@ -9,6 +10,7 @@ import (
 	"errors"
 	"fmt"
 	"net"
+	"sort"
 	"strings"
 	"testing"
 	"time"
@@ -214,8 +216,153 @@ func TestProp_HostileInputs(t *testing.T) {
 			e = newEnv(t)
 		}
 		e.used++
-		kind := rapid.SampledFrom([]string{"alpn-list", "alpn-list", "alpn-list", "mutated-request", "hostile-rewrapped-blob", "hostile-wrapped-blob", "raw-bytes", "oversized-request", "client-alert", "tcp-reset"}).Draw(t, "inputKind")
+		kind := rapid.SampledFrom([]string{"alpn-list", "alpn-list", "alpn-list", "mutated-request", "hostile-rewrapped-blob", "hostile-wrapped-blob", "raw-bytes", "oversized-request", "client-alert", "tcp-reset", "hostile-field-values", "hostile-field-values"}).Draw(t, "inputKind")
 		switch kind {
+		case "hostile-field-values":
+			// a request that is well formed down to the protobuf level (so it gets
+			// past chunking, base64 and unmarshaling, and - for a fetch - is properly
+			// signed by the attacker's own key) but whose FIELD VALUES are hostile:
+			// keys of another algorithm or of a wrong length, out-of-range enums,
+			// missing or absurd timestamps, odd signature lengths
+			a := vkit.NewActor("attacker")
+			var vars []string
+			pick := func(label string, opts ...string) string {
+				v := rapid.SampledFrom(opts).Draw(t, label)
+				if v != "ok" {
+					vars = append(vars, label+"="+v)
+				}
+				return v
+			}
+			keyBytes := func(v string, honest []byte) []byte {
+				switch v {
+				case "ecdsa", "x25519", "rsa":
+					return vkit.AlienPkix(v)
+				case "garbage":
+					return rnd(44)
+				case "empty":
+					return nil
+				case "short":
+					return honest[:len(honest)-1]
+				case "long":
+					return append(append([]byte(nil), honest...), 0)
+				}
+				return honest
+			}
+			var list []string
+			auth := rapid.Bool().Draw(t, "auth")
+			if !auth {
+				info := a.Info()
+				info.CertificatePublicKeyPkix = keyBytes(pick("cert-key", "ok", "ok", "ecdsa", "x25519", "rsa", "garbage", "empty", "short"), info.CertificatePublicKeyPkix)
+				switch pick("cert-key-type", "ok", "ok", "ok", "unspecified", "x25519", "out-of-range") {
+				case "unspecified":
+					info.CertificatePublicKeyType = types.KEYTYPE_UNSPECIFIED
+				case "x25519":
+					info.CertificatePublicKeyType = types.KEYTYPE_X25519
+				case "out-of-range":
+					info.CertificatePublicKeyType = 77
+				}
+				info.EncryptionPublicKeyBytes = keyBytes(pick("enc-key", "ok", "ok", "ok", "empty", "short", "long", "garbage"), info.EncryptionPublicKeyBytes)
+				switch pick("enc-key-type", "ok", "ok", "ok", "ed25519", "out-of-range") {
+				case "ed25519":
+					info.EncryptionPublicKeyType = types.KEYTYPE_ED25519
+				case "out-of-range":
+					info.EncryptionPublicKeyType = -3
+				}
+				switch pick("nonce", "ok", "ok", "empty", "one-byte", "huge", "token-like") {
+				case "empty":
+					info.Nonce = nil
+				case "one-byte":
+					info.Nonce = []byte{1}
+				case "huge":
+					info.Nonce = rnd(3000)
+				case "token-like":
+					// shaped like an activation-token nonce (with empty, short or plausible parts)
+				info.Nonce, _ = proto.Marshal(&types.ServerLedActivationTokenNonce{Nonce: rnd(rapid.SampledFrom([]int{0, 1, 32}).Draw(t, "tokenNonceLen")), HmacKeyBytes: rnd(rapid.SampledFrom([]int{0, 1, 32}).Draw(t, "tokenHmacLen"))})
+				}
+				switch pick("window", "ok", "ok", "missing", "bad-nanos", "year-9999", "inverted") {
+				case "missing":
+					info.NotBefore, info.NotAfter = nil, nil
+				case "bad-nanos":
+					info.NotBefore.Nanos, info.NotAfter.Nanos = -5, 2_000_000_000
+				case "year-9999":
+					info.NotAfter = vkit.TS(time.Date(9999, 12, 31, 23, 59, 59, 0, time.UTC))
+					info.NotBefore = vkit.TS(time.Date(1, 1, 1, 0, 0, 0, 0, time.UTC))
+				case "inverted":
+					info.NotBefore, info.NotAfter = info.NotAfter, info.NotBefore
+				}
+				req := vkit.Sign(info, a.CertPriv)
+				switch pick("signature", "ok", "ok", "ok", "empty", "63-bytes", "65-bytes", "zero") {
+				case "empty":
+					req.BundleSignature = nil
+				case "63-bytes":
+					req.BundleSignature = req.BundleSignature[:63]
+				case "65-bytes":
+					req.BundleSignature = append(req.BundleSignature, 0)
+				case "zero":
+					req.BundleSignature = make([]byte, 64)
+				}
+				if pick("bundle", "ok", "ok", "ok", "ok", "empty") == "empty" {
+					req.Bundle = nil
+				}
+				list = vkit.FetchProtos(req)
+			} else {
+				nonce := rnd(32)
+				req := &types.GenerateServerCertificatesRequest{CertificatePublicKeyPkix: a.CertPkix, Nonce: nonce, NonceSignature: ed25519.Sign(a.CertPriv, nonce)}
+				switch who := pick("claims-key-of", "attacker", "registered-node"); who {
+				case "registered-node":
+					req.CertificatePublicKeyPkix = e.node.CertPkix
+				}
+				req.CertificatePublicKeyPkix = keyBytes(pick("cert-key", "ok", "ok", "ecdsa", "x25519", "rsa", "garbage", "empty", "short"), req.CertificatePublicKeyPkix)
+				switch pick("nonce", "ok", "ok", "empty", "one-byte", "huge") {
+				case "empty":
+					req.Nonce = nil
+				case "one-byte":
+					req.Nonce = []byte{1}
+				case "huge":
+					req.Nonce = rnd(3000)
+				}
+				switch pick("signature", "ok", "ok", "empty", "63-bytes", "65-bytes", "zero") {
+				case "empty":
+					req.NonceSignature = nil
+				case "63-bytes":
+					req.NonceSignature = req.NonceSignature[:63]
+				case "65-bytes":
+					req.NonceSignature = append(req.NonceSignature, 0)
+				case "zero":
+					req.NonceSignature = make([]byte, 64)
+				}
+				switch pick("client-state", "ok", "ok", "garbage-signed", "garbage-unsigned", "valid-struct-bad-signature") {
+				case "garbage-signed":
+					req.ClientState = rnd(30)
+					req.ClientStateSignature = ed25519.Sign(a.CertPriv, req.ClientState)
+				case "garbage-unsigned":
+					req.ClientState = rnd(30)
+				case "valid-struct-bad-signature":
+					req.ClientState, _ = proto.Marshal(vkit.UniqueStruct("x"))
+					req.ClientStateSignature = rnd(64)
+				}
+				switch pick("node-id", "ok", "ok", "unknown", "huge", "invalid-utf8-like") {
+				case "unknown":
+					req.NodeId = "no-such-node"
+				case "huge":
+					req.NodeId = strings.Repeat("n", 4000)
+				case "invalid-utf8-like":
+					req.NodeId = "node\x00id"
+				}
+				req.SkipVerification = rapid.Bool().Draw(t, "skipVerification")
+				switch pick("common-name", "ok", "ok", "huge", "nul") {
+				case "huge":
+					req.CommonName = strings.Repeat("c", 5000)
+				case "nul":
+					req.CommonName = "a\x00b"
+				}
+				list = vkit.AuthProtos(req, nil)
+			}
+			sort.Strings(vars)
+			desc := func() any { return map[string]any{"request": map[bool]string{true: "authentication", false: "fetch"}[auth], "hostile_fields": vars} }
+			rec.Case("hostile-field-values/"+map[bool]string{true: "authentication", false: "fetch"}[auth], fmt.Sprint(auth, vars), len(vars) > 0, desc)
+			e.sendALPN(list)
+			e.judge(t, "hostile-field-values", desc, false)
 		case "alpn-list":
 			n := rapid.IntRange(1, 8).Draw(t, "entries")
 			var list []string
